@@ -36,6 +36,8 @@ pub enum Stmt {
     Delete { w: Option<Expr>, ret: bool },
     Update { sets: Vec<(usize, Expr)>, w: Option<Expr>, ret: bool },
     Truncate,
+    /// a statement on a table that does not exist (0 INSERT, 1 DELETE, 2 UPDATE)
+    Missing(u8),
 }
 
 #[derive(Clone, Debug, PartialEq)]
@@ -95,6 +97,9 @@ impl Stmt {
                 format!("UPDATE {} SET {}{}{}", name, s.join(", "), match w { Some(e) => format!(" WHERE {}", e.to_sql()), None => String::new() }, if *ret { " RETURNING *" } else { "" })
             }
             Stmt::Truncate => format!("TRUNCATE TABLE {}", name),
+            Stmt::Missing(0) => format!("INSERT INTO nosuch_{} VALUES (1)", name),
+            Stmt::Missing(1) => format!("DELETE FROM nosuch_{}", name),
+            Stmt::Missing(_) => format!("UPDATE nosuch_{} SET c1 = 1", name),
         }
     }
     pub fn to_coq(&self) -> String {
@@ -103,6 +108,7 @@ impl Stmt {
             Stmt::Delete { w, ret } => format!("SDelete {} {}", opt_expr_coq(w), cb(*ret)),
             Stmt::Update { sets, w, ret } => format!("SUpdate [{}] {} {}", sets.iter().map(|(c, e)| format!("({}%nat, {})", c, e.to_coq())).collect::<Vec<_>>().join("; "), opt_expr_coq(w), cb(*ret)),
             Stmt::Truncate => "STruncate".into(),
+            Stmt::Missing(_) => "SMissing".into(),
         }
     }
     pub fn to_tok(&self) -> String {
@@ -112,11 +118,13 @@ impl Stmt {
             Stmt::Delete { w, ret } => format!("D{}:{}", *ret as u8, we(w)),
             Stmt::Update { sets, w, ret } => format!("U{}:{}:{}", *ret as u8, sets.iter().map(|(c, e)| format!("{}={}", c, e.to_line())).collect::<Vec<_>>().join("&"), we(w)),
             Stmt::Truncate => "T".into(),
+            Stmt::Missing(k) => format!("M{}", k),
         }
     }
     pub fn from_tok(t: &str, ncols: usize) -> Option<Stmt> {
         let t = t.trim();
         if t == "T" { return Some(Stmt::Truncate); }
+        if let Some(k) = t.strip_prefix('M') { return k.parse::<u8>().ok().filter(|k| *k < 3).map(Stmt::Missing); }
         let we = |s: &str| -> Option<Option<Expr>> { if s.trim() == "-" { Some(None) } else { Expr::from_line(s.trim()).map(Some) } };
         let flag = |c: char| -> Option<bool> { match c { '0' => Some(false), '1' => Some(true), _ => None } };
         let mut ch = t.chars();
@@ -154,6 +162,7 @@ impl Stmt {
             Stmt::Delete { w, ret } => format!("delete:{}{}", wk(w), if *ret { ":returning" } else { "" }),
             Stmt::Update { w, ret, sets } => format!("update:{}:{}{}", wk(w), if sets.iter().any(|(_, e)| !matches!(e, Expr::Lit(_))) { "expr" } else { "lit" }, if *ret { ":returning" } else { "" }),
             Stmt::Truncate => "truncate".into(),
+            Stmt::Missing(_) => "missing_table".into(),
         }
     }
 }
@@ -217,6 +226,9 @@ fn fits(ty: ColTy, v: &Val) -> bool {
     matches!((v, ty), (Val::Null, _) | (Val::Int(_), ColTy::Int) | (Val::Float(_), ColTy::Float) | (Val::Text(_), ColTy::Text))
 }
 fn row_fits(sch: &Schema, r: &[Val]) -> bool { r.len() == sch.ncols() && r.iter().zip(sch.tys.iter()).all(|(v, t)| fits(*t, v)) }
+/// a text value where a number is expected: the statement must be refused
+fn type_err(ty: ColTy, v: &Val) -> bool { matches!((v, ty), (Val::Text(_), ColTy::Int) | (Val::Text(_), ColTy::Float)) }
+fn row_known(sch: &Schema, r: &[Val]) -> bool { r.len() == sch.ncols() && r.iter().zip(sch.tys.iter()).all(|(v, t)| fits(*t, v) || type_err(*t, v)) }
 fn nn_ok(sch: &Schema, r: &[Val]) -> bool {
     r.iter().zip(sch.nn.iter()).all(|(v, b)| !*b || !v.is_null()) && (sch.key != KeyKind::Pk || !r[0].is_null())
 }
@@ -233,11 +245,11 @@ pub fn spec_step(sch: &Schema, t: &[Vec<Val>], s: &Stmt) -> Option<(SRes, Vec<Ve
     let ret_of = |ret: bool, rows: Vec<Vec<Val>>| if ret { Some(rows) } else { None };
     match s {
         Stmt::Insert { rows, ret, .. } => {
-            if !rows.iter().all(|r| row_fits(sch, r)) { return None; }
+            if !rows.iter().all(|r| row_known(sch, r)) { return None; }
             let mut cur: Vec<Vec<Val>> = t.to_vec();
             for r in rows {
                 let conflict = sch.keyed() && !r[0].is_null() && cur.iter().any(|x| x[0] == r[0]);
-                if !nn_ok(sch, r) || conflict { return Some((SRes::Err, t.to_vec())); }
+                if !row_fits(sch, r) || !nn_ok(sch, r) || conflict { return Some((SRes::Err, t.to_vec())); }
                 cur.push(r.clone());
             }
             Some((SRes::Aff(rows.len() as i64, ret_of(*ret, rows.clone())), cur))
@@ -270,6 +282,7 @@ pub fn spec_step(sch: &Schema, t: &[Vec<Val>], s: &Stmt) -> Option<(SRes, Vec<Ve
             if news.iter().all(|r| nn_ok(sch, r)) { Some((SRes::Aff(news.len() as i64, ret_of(*ret, news)), t2)) } else { Some((SRes::Err, t.to_vec())) }
         }
         Stmt::Truncate => Some((SRes::Aff(t.len() as i64, None), vec![])),
+        Stmt::Missing(_) => Some((SRes::Err, t.to_vec())),
     }
 }
 
@@ -371,7 +384,7 @@ impl TState {
         let mut n = 0;
         for r in rows {
             let has_key = sch.keyed() && !r[0].is_null();
-            if !nn_ok(sch, r) || (has_key && self.kidx.iter().any(|(k, _)| *k == r[0])) { return (false, n); }
+            if !row_fits(sch, r) || !nn_ok(sch, r) || (has_key && self.kidx.iter().any(|(k, _)| *k == r[0])) { return (false, n); }
             self.ents.push(Ent { id: self.nextid, del: false, row: r.clone() });
             if has_key { self.kidx.push((r[0].clone(), self.nextid)); }
             self.nextid += 1;
@@ -383,7 +396,7 @@ impl TState {
     pub fn step(&mut self, sch: &Schema, s: &Stmt) -> (u32, MRes) {
         match s {
             Stmt::Insert { rows, ret, .. } => {
-                if !rows.iter().all(|r| row_fits(sch, r)) { return (0, MRes::Unmod); }
+                if !rows.iter().all(|r| row_known(sch, r)) { return (0, MRes::Unmod); }
                 let (ok, n) = self.ins_loop(sch, rows);
                 if ok { self.rcount += n; (0, MRes::Aff(n, if *ret { Some(rows.clone()) } else { None })) } else { (if n > 0 { 4 } else { 0 }, MRes::Err) }
             }
@@ -421,6 +434,7 @@ impl TState {
                 self.ents.clear(); self.kidx.clear(); self.rcount = 0;
                 (k, MRes::Aff(n, None))
             }
+            Stmt::Missing(_) => (0, MRes::Err),
         }
     }
 }
@@ -650,6 +664,7 @@ fn gen_stmt(rng: &mut Rng, sch: &Schema, st: &TState, prof: Profile) -> Stmt {
     let used: Vec<Val> = if dirty { st.visible().iter().map(|r| r[0].clone()).collect() } else { st.ents.iter().map(|e| e.row[0].clone()).collect() };
     // clean histories never reuse the key of a deleted row either: WHERE id = k then stays clear of tombstones
     let ret = rng.chance(1, 3);
+    if prof == Profile::Failing && rng.chance(1, 30) { return Stmt::Missing(rng.below(3) as u8); }
     let roll = rng.below(100);
     let ins_share = if prof == Profile::Failing { 55 } else if st.visible().len() < 3 { 60 } else { 34 };
     if roll < ins_share {
@@ -662,10 +677,16 @@ fn gen_stmt(rng: &mut Rng, sch: &Schema, st: &TState, prof: Profile) -> Stmt {
             taken.extend(rows.iter().map(|r| r[0].clone()));
             if Some(i) == fail_at {
                 let has_nn = sch.nn.iter().any(|b| *b) || sch.key == KeyKind::Pk;
-                if sch.keyed() && !taken.iter().all(|v| v.is_null()) && (rng.chance(2, 3) || !has_nn) {
+                if sch.keyed() && !taken.iter().all(|v| v.is_null()) && (rng.chance(2, 3) || (!has_nn && prof != Profile::Failing)) {
                     let mut r = gen_row(rng, sch, &taken, true, false);
                     let ks: Vec<&Val> = taken.iter().filter(|v| !v.is_null()).collect();
                     r[0] = (*rng.pick(&ks)).clone();
+                    rows.push(r);
+                } else if prof == Profile::Failing && rng.chance(1, 3) {
+                    // type error: a text value in a numeric column
+                    let mut r = gen_row(rng, sch, &taken, true, false);
+                    let cs: Vec<usize> = (0..sch.ncols()).filter(|c| sch.tys[*c] != ColTy::Text).collect();
+                    r[*rng.pick(&cs)] = Val::text(*rng.pick(&["abc", "x", "12a"]));
                     rows.push(r);
                 } else { rows.push(gen_row(rng, sch, &taken, true, true)); }
             } else { rows.push(gen_row(rng, sch, &taken, true, false)); }
@@ -777,7 +798,7 @@ fn emit(w: &mut CaseWriter, sut: &mut Sut, prop: &str, sch: &Schema, h: &[Stmt],
     };
     let st = hist_stat(sch, h);
     let nontrivial = if prop == "C05" { st.tomb_regime } else { st.failing_nonempty > 0 };
-    let kind = format!("{}:key={}:class={}", stream, match sch.key { KeyKind::None => "none", KeyKind::Pk => "pk", KeyKind::Uniq => "unique" }, if prop == "C05" { st.class } else { (st.class == 4) as u32 });
+    let kind = format!("{}:key={}:class={}", stream, match sch.key { KeyKind::None => "none", KeyKind::Pk => "pk", KeyKind::Uniq => "unique" }, if prop == "C05" { st.class } else { has_partial_insert(sch, h) as u32 });
     w.push(case_term(sch, h, &obs), hist_line(sch, h), nontrivial, &kind);
     w.count("statements", h.len() as u64);
     for s in h { w.count(&format!("stmt:{}", s.shape(sch)), 1); }
@@ -844,7 +865,7 @@ pub fn search(a: &Args, prop: &str) {
             // cut the history after the first bad step: a short replay
             let h2 = &h[..=i];
             let k = hist_class(&sch, h2);
-            let k = if prop == "C05" { k } else { (k == 4 || hist_stat(&sch, h2).class == 4 || has_partial_insert(&sch, h2)) as u32 };
+            let k = if prop == "C05" { k } else { has_partial_insert(&sch, h2) as u32 };
             if fails.len() < 60 && (k == 0 || fails.len() < 30) { fails.push(format!("{} #k={}", hist_line(&sch, h2), k)); }
         }
     }
